@@ -35,7 +35,7 @@ type Sched struct {
 	mu           sync.Mutex
 	tasks        []*task
 	byG          map[uint64]*task
-	TrustLast    bool // the system has no inter-task wakeups (no channels): skip the goroutine-id lookup
+	TrustLast    bool                     // the system has no inter-task wakeups (no channels): skip the goroutine-id lookup
 	Choose       func(n int, cur int) int // pick among n runnable tasks; cur = index of the task that ran last, or -1
 	Trace        func(decision int, task int, name string, site int)
 	last         *task
@@ -187,7 +187,11 @@ func Lock(m locker, site int) {
 		m.(l).Lock()
 		return
 	}
-	Yield(site)
+	if plan != nil {
+		YieldW(site)
+	} else {
+		Yield(site)
+	}
 	t := s.me()
 	for !m.TryLock() {
 		s.mu.Lock()
@@ -214,6 +218,9 @@ func Unlock(m locker, site int) {
 		}
 	}
 	s.mu.Unlock()
+	if plan != nil {
+		YieldW(site) // the window right after a critical section
+	}
 }
 
 type rlocker interface {
@@ -228,7 +235,11 @@ func RLock(m rlocker, site int) {
 		m.(l).RLock()
 		return
 	}
-	Yield(site)
+	if plan != nil {
+		YieldW(site)
+	} else {
+		Yield(site)
+	}
 	t := s.me()
 	for !m.TryRLock() {
 		s.mu.Lock()
